@@ -18,11 +18,17 @@ def scope(field, exp, got, info):
 
 SPEC = dict(
     sig="flow", scope=scope,
-    sc=dict(family="flow", n=(220, 1500), mc=dict(max_calls=12, after_end=1), mc_thorough=dict(max_calls=14),
-            invariants=FLOW, bugs=[("secondClauseAlsoRuns", FLOW, []), ("jumpKeepsStack", FLOW, [])]),
+    sc_list=[
+        dict(family="flow", n=(200, 1500), mc=dict(max_calls=12, after_end=1), mc_thorough=dict(max_calls=14),
+             invariants=FLOW, bugs=[("secondClauseAlsoRuns", FLOW, []), ("jumpKeepsStack", FLOW, [])]),
+        # systematic family: all programs "S1; S2" over a statement alphabet of 376 (141,752 programs), strided sample
+        dict(family="tiny", n=(400, 30000), mc=dict(max_calls=10, after_end=1), invariants=FLOW),
+    ],
     cs=[dict(family="flowbig", n=(60, 400), paths=(4, 6), calls=45, layouts=True,
              label="YarnTrace: random walks of big programs under random layouts")],
-    rule="seeded random programs of the flow family (<=3 nodes, nesting <=3): ALL choice paths enumerated by TLC (MC_Runner) and replayed; "
+    rule="systematic family `tiny` (every program S1;S2 over an alphabet of 376 statements built from 6 leaf statements, if / if-else with 3 "
+         "condition kinds and option groups of 1-2 options over 10 small bodies: 141,752 programs; a strided sample per run, seed-dependent offset) "
+         "and seeded random programs of the flow family (<=3 nodes, nesting <=3): ALL choice paths enumerated by TLC (MC_Runner) and replayed; "
          "bigger programs (<=5 nodes, nesting <=4) on random paths under random layouts and reader splits, trace-validated; "
          "non-trivial = program nests option/if bodies at depth >= 2 or jumps",
     assumptions=["choices are in range whenever an option group is pending (precondition of the property); "
